@@ -56,6 +56,7 @@ IHandlerSkipExpired(id) == Go /\ HandlerSkipExpired(id) /\ Same
 ISendResponse(id) == Go /\ SendResponse(id) /\ Same
 IOrphanRecv(id) == Go /\ OrphanRecv(id) /\ Same
 IOrphanDrop(id) == Go /\ OrphanDrop(id) /\ Same
+IBodyReadDeadline(id) == Go /\ BodyReadDeadline(id) /\ Same
 ISendFromWriteQ(c) == Go /\ SendFromWriteQ(c) /\ Same
 IClientRecv(c) == Go /\ ClientRecv(c) /\ Same
 IConnDrop(c) == Go /\ ConnDrop(c) /\ Same
@@ -108,6 +109,7 @@ MCNext ==
         \/ ISendResponse(id)
         \/ IOrphanRecv(id)
         \/ IOrphanDrop(id)
+        \/ IBodyReadDeadline(id)
         \/ \E t, f \in BOOLEAN : VInvoke(id, t, f)
         \/ VCtxCancel(id) \/ VReturnResult(id) \/ VReturnPending(id) \/ VHandlerEnter(id)
         \/ \E o \in Outs : VHandlerExit(id, o)
